@@ -207,6 +207,8 @@ func sbIndirect(d *sbDir, n string) []string {
 			"(map "+n+" ["+a+"])",
 			"(def zqh (hash k: "+n+")) ((hget zqh k:) "+a+")",
 			"(let [zql "+n+"] (zql "+a+"))",
+			// evaluated while the macro is being expanded (in the interpreter's duplicate)
+			"(defmac zqe [a] (eval (list (quote "+n+") a))) (zqe "+a+")",
 		)
 	}
 	return out
@@ -217,7 +219,7 @@ func sbBattery(d *sbDir, cfg, n string) []string {
 	if cfg != "cli" {
 		b = append(b, sbIndirect(d, n)...)
 	} else {
-		b = append(b, sbIndirect(d, n)[:8]...)
+		b = append(b, sbIndirect(d, n)[:9]...)
 	}
 	return b
 }
